@@ -370,6 +370,13 @@ var c20Protect = probe.Define("C20", "protect-touches-only-the-list", func(t *ra
 
 func TestC20(t *testing.T) {
 	c := probe.NewCtx(t, "C20")
+	runIDSweep(c, func(m model.Message) bool {
+		w, err := ref.EncodeMessage(m, nil)
+		if err != nil {
+			return true
+		}
+		return c20Decode.Eval(c, c20DecIn{W: w, Origin: "id-sweep"})
+	})
 	c20Decode.Run(c, t, c.N(4000, 40000))
 	c20Unprotect.Run(c, t, c.N(1500, 15000))
 	c20Encode.Run(c, t, c.N(2500, 25000))
